@@ -5,6 +5,7 @@ package c13
 import (
 	"fmt"
 	"go/types"
+	"os"
 	"sort"
 	"strings"
 
@@ -81,8 +82,8 @@ func (i *Instance) verifControlC13BadLeak(nodeId string) []byte {
 	return out
 }
 
-// must stay silent: explicit unlock on every exit, evaluation through a helper
-func (i *Instance) verifControlC13Good(nodeId string) []byte {
+// must fire (CONC-5): explicit unlock on every normal exit, but a panic in the evaluation keeps the mutex
+func (i *Instance) verifControlC13BadExplicit(nodeId string) []byte {
 	i.producerLock.Lock()
 	if nodeId == "" {
 		i.producerLock.Unlock()
@@ -90,6 +91,33 @@ func (i *Instance) verifControlC13Good(nodeId string) []byte {
 	}
 	out := i.verifControlC13GoodHelper(nodeId)
 	i.producerLock.Unlock()
+	return out
+}
+
+// must stay silent: deferred function literal unlocks, early return, evaluation through a helper
+func (i *Instance) verifControlC13Good(nodeId string) []byte {
+	i.producerLock.Lock()
+	defer func() {
+		i.producerLock.Unlock()
+	}()
+	if nodeId == "" {
+		return nil
+	}
+	return i.verifControlC13GoodHelper(nodeId)
+}
+
+func (i *Instance) verifControlC13WithLock(f func()) {
+	i.producerLock.Lock()
+	defer i.producerLock.Unlock()
+	f()
+}
+
+// must stay silent: critical section provided by a helper that defers inside
+func (i *Instance) verifControlC13GoodWrapped(nodeId string) []byte {
+	var out []byte
+	i.verifControlC13WithLock(func() {
+		out = i.Parameter(nodeId).ToMessage()
+	})
 	return out
 }
 
@@ -145,6 +173,39 @@ func (pn *verifControlC13GoodFresh) verifControlC13Store(p *[]float64) {
 	pn.version++
 	pn.cur = p
 }
+
+// must fire VIS-1: success return that skips the store, compared against a stale notion of the value
+type verifControlC13BadSkip struct{ File }
+
+func (pn *verifControlC13BadSkip) ApplyMessage(msg []byte) (bool, error) {
+	if len(msg) == len(pn.DefaultValue) {
+		return false, nil
+	}
+	pn.version++
+	pn.appliedProfile = append([]byte(nil), msg...)
+	return true, nil
+}
+`,
+		"generator/zz_verif_control_c13.go": `package generator
+
+import (
+	"fmt"
+	"net/http"
+)
+
+// must fire CONC-6: artifact and model version come from two separate calls
+func (as *AppServer) verifControlC13BadTwoReads(w http.ResponseWriter, name string) {
+	artifact := as.app.graphInstance.Artifact(name)
+	w.Header().Set("ETag", fmt.Sprint(as.app.graphInstance.ModelVersion()))
+	artifact.Write(w)
+}
+
+// must stay silent: one call feeds the response
+func (as *AppServer) verifControlC13GoodOneRead(w http.ResponseWriter, name string) {
+	artifact := as.app.graphInstance.Artifact(name)
+	w.Header().Set("Content-Type", artifact.Mime())
+	artifact.Write(w)
+}
 `,
 	}
 }
@@ -162,6 +223,8 @@ type anchors struct {
 	mutexPaths map[string]bool // access paths (relative to an *Instance) that name a mutex of the Instance
 	analyses   map[*ssa.Function]*lockset.Result
 	cgForNotes *callgraph.Graph
+	// fields of Instance written by the three entry points
+	regionWritten map[*types.Var]bool
 }
 
 func run(c *props.Ctx) {
@@ -245,7 +308,7 @@ func run(c *props.Ctx) {
 	// control pseudo-entries
 	var ctlEntries []*ssa.Function
 	for _, fn := range p.FuncsOf(a.pkg) {
-		if p.IsControl(fn.Pos()) && fn.Parent() == nil && strings.HasPrefix(fn.Name(), "verifControlC13") && !strings.HasSuffix(fn.Name(), "Helper") {
+		if p.IsControl(fn.Pos()) && fn.Parent() == nil && strings.HasPrefix(fn.Name(), "verifControlC13") && !strings.HasSuffix(fn.Name(), "Helper") && !strings.HasSuffix(fn.Name(), "WithLock") {
 			ctlEntries = append(ctlEntries, fn)
 		}
 	}
@@ -254,10 +317,13 @@ func run(c *props.Ctx) {
 	a.whoMayCall()
 	a.noCopy()
 	a.fresh1()
+	a.vis1()
+	a.conc6(entries)
 	a.otherMethods(entries)
 
 	c.R.Floor("CONC-1", 5)
 	c.R.Floor("CONC-4", 4)
+	c.R.Floor("CONC-5", 3)
 	c.R.Floor("CONC-4/who-may-call", 2)
 	c.R.Floor("CONC-4/no-copy", 15)
 }
@@ -418,6 +484,73 @@ type walkCtx struct {
 	entry    lockset.State
 	ambient  lockset.Mode
 	how      string
+	// function literals bound to func-typed parameters of fn (withLock(func(){…}) helpers)
+	funcArgs map[*ssa.Parameter]closureArg
+}
+
+type closureArg struct {
+	fn       *ssa.Function
+	instRoot ssa.Value
+}
+
+// closureOperand: the function literal behind a call operand, if any.
+func closureOperand(v ssa.Value) *ssa.MakeClosure {
+	mc, _ := ssau.Strip(v).(*ssa.MakeClosure)
+	return mc
+}
+
+// onlyPassedToRepoCalls: the literal is never called on the spot but handed, as an argument,
+// to statically resolved repository functions (which are followed with the binding).
+func (a *anchors) onlyPassedToRepoCalls(mc *ssa.MakeClosure) bool {
+	n := 0
+	for _, r := range ssau.Refs(mc) {
+		switch r := r.(type) {
+		case *ssa.DebugRef:
+		case *ssa.ChangeType:
+			return false
+		case ssa.CallInstruction:
+			if _, isGo := r.(*ssa.Go); isGo {
+				return false
+			}
+			callee := r.Common().StaticCallee()
+			if r.Common().Value == ssa.Value(mc) || callee == nil || !a.inModule(callee) || len(callee.Blocks) == 0 {
+				return false
+			}
+			n++
+		default:
+			return false
+		}
+	}
+	return n > 0
+}
+
+// isLockWrapper: a helper that takes the mutex of the Instance it is given, releases it on
+// every exit and runs its body in between (func (i *Instance) withLock(f func()) { Lock; defer Unlock; f() }).
+func (a *anchors) isLockWrapper(fn *ssa.Function) (ssa.Value, bool) {
+	if fn == nil || len(fn.Blocks) == 0 {
+		return nil, false
+	}
+	res := a.analysis(fn)
+	var root ssa.Value
+	for _, op := range res.Ops {
+		if op.Deferred || !(op.Kind == lockset.OpLock || op.Kind == lockset.OpRLock) || !a.mutexPaths[op.Key.Path] {
+			continue
+		}
+		if prm, ok := op.Key.Root.(*ssa.Parameter); ok && prm.Parent() == fn {
+			root = prm
+		}
+	}
+	if root == nil {
+		return nil, false
+	}
+	for _, ex := range res.Exits {
+		for k := range ex.Held {
+			if k.Root == root {
+				return nil, false
+			}
+		}
+	}
+	return root, true
 }
 
 type walker struct {
@@ -441,7 +574,7 @@ func (w *walker) mode(st lockset.State, c walkCtx) lockset.Mode {
 }
 
 func (w *walker) walk(c walkCtx, depth int, chain string) {
-	sig := fmt.Sprintf("%p|%p|%s|%d|%s", c.fn, c.instRoot, c.entry.Sig(), c.ambient, c.how)
+	sig := fmt.Sprintf("%p|%p|%s|%d|%s|%d", c.fn, c.instRoot, c.entry.Sig(), c.ambient, c.how, len(c.funcArgs))
 	if w.seen[sig] || depth > 6 || len(c.fn.Blocks) == 0 {
 		return
 	}
@@ -471,7 +604,8 @@ func (w *walker) walk(c walkCtx, depth int, chain string) {
 			case ssa.CallInstruction:
 				if op, ok := lockset.ClassifyCall(x); ok {
 					releaseInDefer := c.how == "defer" && (op.Kind == lockset.OpUnlock || op.Kind == lockset.OpRUnlock)
-					if depth > 0 && !releaseInDefer && c.instRoot != nil && op.Key.Root == c.instRoot && a.mutexPaths[op.Key.Path] {
+					_, wrapper := a.isLockWrapper(c.fn)
+					if depth > 0 && !releaseInDefer && !wrapper && c.instRoot != nil && op.Key.Root == c.instRoot && a.mutexPaths[op.Key.Path] {
 						w.events = append(w.events, event{key: "lock operation in helper", instr: instr, fn: c.fn, chain: chain, lockIn: true})
 					}
 					continue
@@ -489,6 +623,13 @@ func (w *walker) walk(c walkCtx, depth int, chain string) {
 					continue
 				}
 				cc := x.Common()
+				if prm, ok := cc.Value.(*ssa.Parameter); ok && !cc.IsInvoke() {
+					if ca, ok := c.funcArgs[prm]; ok {
+						// the body handed to a helper runs here, under whatever the helper holds
+						w.walk(walkCtx{fn: ca.fn, instRoot: ca.instRoot, entry: lockset.State{}, ambient: mode, how: how}, depth+1, chain)
+						continue
+					}
+				}
 				var callee *ssa.Function
 				closure := false
 				if mc, ok := cc.Value.(*ssa.MakeClosure); ok {
@@ -523,8 +664,21 @@ func (w *walker) walk(c walkCtx, depth int, chain string) {
 						}
 					}
 					nc.entry = lockset.Translate(held, cc.Args, callee)
+					nc.ambient = c.ambient // a hold inherited from an enclosing helper stays in force
 					if nc.instRoot == nil {
 						nc.ambient = mode
+					}
+				}
+				if !closure {
+					for j, arg := range cc.Args {
+						if mc := closureOperand(arg); mc != nil && j < len(callee.Params) {
+							if lit, _ := mc.Fn.(*ssa.Function); lit != nil {
+								if nc.funcArgs == nil {
+									nc.funcArgs = map[*ssa.Parameter]closureArg{}
+								}
+								nc.funcArgs[callee.Params[j]] = closureArg{lit, c.instRoot}
+							}
+						}
 					}
 				}
 				w.walk(nc, depth+1, chain)
@@ -535,6 +689,9 @@ func (w *walker) walk(c walkCtx, depth int, chain string) {
 					if ci, ok := r.(ssa.CallInstruction); ok && ci.Common().Value == ssa.Value(x) {
 						direct = true
 					}
+				}
+				if a.onlyPassedToRepoCalls(x) {
+					continue // followed at the call that receives it
 				}
 				if fn, _ := x.Fn.(*ssa.Function); fn != nil && !direct {
 					w.walk(walkCtx{fn: fn, instRoot: c.instRoot, entry: lockset.State{}, how: "closure"}, depth+1, chain)
@@ -617,6 +774,9 @@ type entryFacts struct {
 	copies  []ssa.Instruction
 	lockKey map[string]lockset.Mode // mutex path -> mode taken (keys rooted at the receiver)
 	res     *lockset.Result
+	// the function that takes the mutex (the entry itself, or a lock-wrapper helper it calls)
+	lockFn   *ssa.Function
+	lockRoot ssa.Value
 }
 
 func (a *anchors) analyseEntry(fn *ssa.Function) *entryFacts {
@@ -641,6 +801,40 @@ func (a *anchors) analyseEntry(fn *ssa.Function) *entryFacts {
 			}
 		}
 	}
+	ef.lockFn, ef.lockRoot = fn, root
+	if len(ef.lockKey) == 0 {
+		// the critical section may be provided by a helper (i.withLock(func(){…}))
+		ssau.AllInstrs(fn, func(in ssa.Instruction) {
+			ci, ok := in.(*ssa.Call)
+			if !ok || ef.lockFn != fn {
+				return
+			}
+			callee := ci.Common().StaticCallee()
+			wr, isW := a.isLockWrapper(callee)
+			if !isW {
+				return
+			}
+			for j, arg := range ci.Common().Args {
+				if k := lockset.Canon(arg); k.Root == root && k.Path == "" && j < len(callee.Params) && ssa.Value(callee.Params[j]) == wr {
+					ef.lockFn, ef.lockRoot = callee, wr
+					ef.res = lockset.Analyze(callee, nil)
+					for _, op := range ef.res.Ops {
+						if op.Deferred || op.Key.Root != wr || !a.mutexPaths[op.Key.Path] {
+							continue
+						}
+						switch op.Kind {
+						case lockset.OpLock:
+							ef.lockKey[op.Key.Path] = lockset.Excl
+						case lockset.OpRLock:
+							if ef.lockKey[op.Key.Path] < lockset.Shared {
+								ef.lockKey[op.Key.Path] = lockset.Shared
+							}
+						}
+					}
+				}
+			}
+		})
+	}
 	return ef
 }
 
@@ -664,6 +858,7 @@ func (a *anchors) regionRules(entries, ctl []*ssa.Function) {
 			}
 		}
 	}
+	a.regionWritten = written
 	repo := verdictSink{hold: c.R.Hold, violate: c.R.Violate, undecide: func(r, k, pos, m string) { c.R.Undecide(r, k, pos, m) }}
 	fnCount := 0
 	for _, fn := range entries {
@@ -703,9 +898,19 @@ func (a *anchors) regionRules(entries, ctl []*ssa.Function) {
 			ef := a.analyseEntry(fn)
 			bad := false
 			sink := verdictSink{
-				hold:     func(rule, construct, pos string, facts ...string) {},
-				violate:  func(rule, construct, pos, msg string, facts ...string) { bad = true },
-				undecide: func(rule, construct, pos, msg string) { bad = true },
+				hold: func(rule, construct, pos string, facts ...string) {},
+				violate: func(rule, construct, pos, msg string, facts ...string) {
+					bad = true
+					if os.Getenv("POLYCHECK_DUMP") != "" {
+						fmt.Println("CONTROL", rule, construct, msg)
+					}
+				},
+				undecide: func(rule, construct, pos, msg string) {
+					bad = true
+					if os.Getenv("POLYCHECK_DUMP") != "" {
+						fmt.Println("CONTROL?", rule, construct, msg)
+					}
+				},
 			}
 			a.entryObligations(ef, written, sink, "")
 			got, want := ob.Holds, ob.Holds
@@ -749,9 +954,9 @@ func (a *anchors) entryObligations(ef *entryFacts, written map[*types.Var]bool, 
 	default:
 		var problems []string
 		var facts []string
-		root := ssa.Value(nil)
-		if len(ef.fn.Params) > 0 {
-			root = ef.fn.Params[0]
+		root := ef.lockRoot
+		if ef.lockFn != ef.fn {
+			facts = append(facts, "critical section provided by helper "+p.FuncName(ef.lockFn))
 		}
 		if sig := ef.fn.Signature; sig.Recv() != nil {
 			if _, ok := sig.Recv().Type().(*types.Pointer); !ok {
@@ -778,11 +983,13 @@ func (a *anchors) entryObligations(ef *entryFacts, written map[*types.Var]bool, 
 		}
 		// pairing: between Lock and the registration of its deferred Unlock nothing may leave the function
 		deferred := false
-		ssau.AllInstrs(ef.fn, func(in ssa.Instruction) {
+		var deferRegs []ssa.Instruction
+		ssau.AllInstrs(ef.lockFn, func(in ssa.Instruction) {
 			if d, ok := in.(*ssa.Defer); ok {
 				for _, k := range lockset.DeferredClosureUnlocks(d) {
 					if k.Root == root && a.mutexPaths[k.Path] {
 						deferred = true
+						deferRegs = append(deferRegs, d)
 						if msg := a.pairing(ef, lockset.Op{Instr: d, Key: k, Deferred: true}); msg != "" {
 							problems = append(problems, msg)
 						} else {
@@ -795,6 +1002,7 @@ func (a *anchors) entryObligations(ef *entryFacts, written map[*types.Var]bool, 
 		for _, op := range ef.res.Ops {
 			if op.Deferred && op.Key.Root == root && a.mutexPaths[op.Key.Path] {
 				deferred = true
+				deferRegs = append(deferRegs, op.Instr)
 				if msg := a.pairing(ef, op); msg != "" {
 					problems = append(problems, msg)
 				} else {
@@ -803,13 +1011,67 @@ func (a *anchors) entryObligations(ef *entryFacts, written map[*types.Var]bool, 
 			}
 		}
 		if !deferred {
-			facts = append(facts, "explicit Unlock on every exit (a panic inside the critical section would leave the mutex held)")
+			facts = append(facts, "explicit Unlock on every normal exit")
 		}
 		if len(problems) > 0 {
 			sort.Strings(problems)
 			out.violate("CONC-4", construct, pos, problems[0], append(problems[1:], facts...)...)
 		} else {
 			out.hold("CONC-4", construct, pos, facts...)
+		}
+		// ---- CONC-5: release on every exit, panics included. Node evaluation, parameter decoding and the
+		// node lookup are code that may panic (the HTTP layer recovers and keeps serving), so every call that
+		// can run repository / user code while the mutex is held must come after the registration of a
+		// deferred unlock; an Unlock on the normal path only leaves the mutex held for ever.
+		var unsafeCalls, safeCalls []string
+		ssau.AllInstrs(ef.lockFn, func(in ssa.Instruction) {
+			ci, ok := in.(*ssa.Call)
+			if !ok || ssau.Builtin(ci) != "" {
+				return
+			}
+			if _, isLock := lockset.ClassifyCall(ci); isLock {
+				return
+			}
+			heldHere := false
+			for k := range ef.res.HeldBefore(in) {
+				if k.Root == root && a.mutexPaths[k.Path] {
+					heldHere = true
+				}
+			}
+			if !heldHere {
+				return
+			}
+			cc := ci.Common()
+			callee := cc.StaticCallee()
+			mayPanic := a.classify(ci) != "" || cc.IsInvoke() || callee == nil || a.inModule(callee)
+			if !mayPanic {
+				return
+			}
+			covered := false
+			for _, d := range deferRegs {
+				if ssau.Before(d, in) {
+					covered = true
+				}
+			}
+			what := "call"
+			if k := a.classify(ci); k != "" {
+				what = strings.TrimPrefix(k, "call ")
+			} else if callee != nil {
+				what = p.FuncName(callee)
+			}
+			if covered {
+				safeCalls = append(safeCalls, what+" at "+p.Pos(ssau.PosOf(in)))
+			} else {
+				unsafeCalls = append(unsafeCalls, what+" at "+p.Pos(ssau.PosOf(in))+" runs with the mutex held but no deferred Unlock is registered: if it panics (recovered by the HTTP layer) the mutex stays locked and every later UpdateParameter / ParameterData / Artifact blocks for ever")
+			}
+		})
+		c5 := ename + ":release-on-panic"
+		if len(unsafeCalls) > 0 {
+			sort.Strings(unsafeCalls)
+			out.violate("CONC-5", c5, pos, unsafeCalls[0], unsafeCalls[1:]...)
+		} else {
+			sort.Strings(safeCalls)
+			out.hold("CONC-5", c5, pos, append([]string{"every call in the critical section that can run repository / user code comes after the deferred Unlock"}, safeCalls...)...)
 		}
 	}
 
@@ -1157,8 +1419,24 @@ func (a *anchors) whoMayCall() {
 			if it.fn.Parent() != nil {
 				// function literal: its callers are decided by the uses of the closure value, not by
 				// CHA's "every function of that signature"
-				if esc := closureEscapes(it.fn); esc != "" {
+				sites, esc := a.literalCallSites(it.fn)
+				if esc != "" {
 					return true, it.path + " (function literal " + esc + ": runs at an unknown time)", heldEdges
+				}
+				if len(sites) > 0 {
+					// handed to repository helpers that only call it: the helpers' call sites are its callers
+					for _, st := range sites {
+						g := st.Parent()
+						if a.heldAt(g, st) == lockset.Excl {
+							heldEdges++
+							continue
+						}
+						if !seen[g] {
+							seen[g] = true
+							work = append(work, item{g, it.path + " ← " + p.FuncName(g)})
+						}
+					}
+					continue
 				}
 			}
 			for _, e := range in {
@@ -1287,4 +1565,63 @@ func closureEscapes(fn *ssa.Function) string {
 		}
 	}
 	return ""
+}
+
+// literalCallSites: when a function literal is (also) handed as an argument to statically resolved
+// repository functions whose parameter is only ever called, the call sites of that parameter are
+// returned (plus the direct calls of the literal); esc != "" when some use lets it escape.
+func (a *anchors) literalCallSites(fn *ssa.Function) (sites []ssa.Instruction, esc string) {
+	site := lockset.ClosureSite(fn)
+	if site == nil {
+		return nil, "created at several sites"
+	}
+	passed := false
+	for _, r := range ssau.Refs(site) {
+		switch r := r.(type) {
+		case *ssa.DebugRef:
+		case *ssa.Go:
+			if r.Call.Value == ssa.Value(site) {
+				return nil, "spawned as a goroutine"
+			}
+			return nil, "passed to a goroutine"
+		case ssa.CallInstruction:
+			cc := r.Common()
+			if cc.Value == ssa.Value(site) {
+				if passed {
+					sites = append(sites, r.(ssa.Instruction))
+				}
+				continue
+			}
+			callee := cc.StaticCallee()
+			if callee == nil || !a.inModule(callee) || len(callee.Blocks) == 0 {
+				return nil, "passed as an argument"
+			}
+			for j, arg := range cc.Args {
+				if arg != ssa.Value(site) || j >= len(callee.Params) {
+					continue
+				}
+				for _, pr := range ssau.Refs(callee.Params[j]) {
+					switch pr := pr.(type) {
+					case *ssa.DebugRef:
+					case *ssa.Go:
+						return nil, "spawned as a goroutine by " + callee.Name()
+					case ssa.CallInstruction:
+						if pr.Common().Value != ssa.Value(callee.Params[j]) {
+							return nil, "passed on by " + callee.Name()
+						}
+						sites = append(sites, pr.(ssa.Instruction))
+						passed = true
+					default:
+						return nil, "stored / returned by " + callee.Name()
+					}
+				}
+			}
+		default:
+			return nil, "stored / returned"
+		}
+	}
+	if !passed {
+		return nil, closureEscapes(fn)
+	}
+	return sites, ""
 }
